@@ -7,7 +7,7 @@ import tempfile
 from core import nats, natlists, hx, exc_kind, safe_check
 
 PROPS = ('GambitV.Props.C20', 'GambitV.C20')
-TIE = [('GambitV.Tie.PyCheckIndex', 'GambitV.Tie.Py'), ('GambitV.Tie.PyPropsC20', 'GambitV.Tie.Py'), ('GambitV.Tie.PyConcat', 'GambitV.Tie.Py'), ('GambitV.Tie.PySigList', 'GambitV.Tie.Py'), ('GambitV.Tie.PyGetitem', 'GambitV.Tie.Py'), ('GambitV.Tie.PySigListGetitem', 'GambitV.Tie.Py'), ('GambitV.Tie.PyClassFacts', 'GambitV.Tie.Py'), ('GambitV.Tie.PySigEq', 'GambitV.Tie.Py'), ('GambitV.Tie.PyEqFlow', 'GambitV.Tie.Py')]
+TIE = [('GambitV.Tie.PyCheckIndex', 'GambitV.Tie.Py'), ('GambitV.Tie.PyPropsC20', 'GambitV.Tie.Py'), ('GambitV.Tie.PyConcat', 'GambitV.Tie.Py'), ('GambitV.Tie.PySigList', 'GambitV.Tie.Py'), ('GambitV.Tie.PyGetitem', 'GambitV.Tie.Py'), ('GambitV.Tie.PySigListGetitem', 'GambitV.Tie.Py'), ('GambitV.Tie.PyClassFacts', 'GambitV.Tie.Py'), ('GambitV.Tie.PySigEq', 'GambitV.Tie.Py'), ('GambitV.Tie.PyEqFlow', 'GambitV.Tie.Py'), ('GambitV.Tie.PySigArrayInit', 'GambitV.Tie.Py')]
 RULE = ('(collection content, container type in {SignatureArray, SignatureList, HDF5Signatures}, index expression). Exhaustive: every '
         'slice with start/stop/step in -R..R ∪ {None} over lengths 0..L (R,L = 4,4 quick / 7,6 thorough); all integer index lists up to '
         'length 3/4 with entries in -(n+1)..n; all boolean masks of length n-1..n+1. Random: NumPy integer dtypes, tuples/lists/arrays, '
